@@ -170,8 +170,12 @@ def _hdist(h):
 
 
 def _bind(d, f):
+    """distribution monad; a string key is a failure ('ERR:IndexError') and propagates"""
     out = {}
     for x, px in d.items():
+        if isinstance(x, str):
+            out[x] = out.get(x, 0) + px
+            continue
         for y, py in f(x).items():
             out[y] = out.get(y, 0) + px * py
     return out
@@ -180,7 +184,7 @@ def _bind(d, f):
 def _seq(ds):
     acc = {(): Fraction(1)}
     for d in ds:
-        acc = _bind(acc, lambda pre, d=d: {pre + (x,): p for x, p in d.items()})
+        acc = _bind(acc, lambda pre, d=d: {(x if isinstance(x, str) else pre + (x,)): p for x, p in d.items()})
     return acc
 
 
@@ -222,8 +226,11 @@ def enum(t):
                 f = PRED[t[1]][1]
                 return {tuple(v if f(v) else None for v in vals): Fraction(1)}
             s = tuple(sorted(vals))
-            sel = pools.pick(s, t[1])
-            idx = pools.pick(tuple(range(len(s))), t[1])
+            try:
+                sel = pools.pick(s, t[1])
+                idx = pools.pick(tuple(range(len(s))), t[1])
+            except IndexError:
+                return {"ERR:IndexError": Fraction(1)}
             return {tuple(sel) + (None,) * (len(s) - len(set(idx))): Fraction(1)}
         return _bind(parts, fin)
     if k == "repeat":
@@ -252,8 +259,8 @@ def enum(t):
                     here = {(Fraction(*e[1]),): Fraction(1)}
                 else:
                     head = (v,) if t[2] else (None,)
-                    here = _bind(src, lambda rv2: {head + sub: p for sub, p in expand(rv2, left - 1).items()})
-                acc = _bind(acc, lambda pre, here=here: {pre + x: p for x, p in here.items()})
+                    here = _bind(src, lambda rv2: {(sub if isinstance(sub, str) else head + sub): p for sub, p in expand(rv2, left - 1).items()})
+                acc = _bind(acc, lambda pre, here=here: {(x if isinstance(x, str) else pre + x): p for x, p in here.items()})
             return acc
         return _bind(src, lambda rv: expand(rv, t[3]))
     raise ValueError(k)
